@@ -236,6 +236,7 @@ Lemma leaky_bucket_mode p : lib_mode LeakyBucket p = MVal. Proof. reflexivity. Q
 Lemma pacing_mode p : lib_mode Pacing p = MVal. Proof. reflexivity. Qed.
 Lemma dump_sender_mode p : lib_mode DumpSender p = MVal. Proof. reflexivity. Qed.
 Lemma dump_receiver_mode p : lib_mode DumpReceiver p = MVal. Proof. reflexivity. Qed.
+Lemma dump_receiver_rtcp_mode p : lib_mode DumpReceiverRtcp p = MVal. Proof. reflexivity. Qed.
 Lemma stats_out_mode p : lib_mode StatsOut p = MVal. Proof. reflexivity. Qed.
 Lemma stats_in_mode p : lib_mode StatsIn p = MVal. Proof. reflexivity. Qed.
 Lemma jb_interceptor_mode p : lib_mode JBInterceptor p = MVal. Proof. reflexivity. Qed.
